@@ -180,21 +180,28 @@ def r3(chk, prog):
                           'terminator byte(s))' % extra, f.loc(),
                           'writeMessage() writes len+%d bytes, written() adds len%+d' % (extra, added - 100))
             else:
-                # writeCheck: accept iff current + len + extra (<|<=) max  -> find the largest accepted current size
-                accepted = []
-                for cur in range(880, 1001):
-                    env = {'%s.length()' % text: 100, '%s.size()' % text: 100, text: 100}
-                    for fld in field_reads(f):
-                        env['this.' + fld] = 1000 if 'Max' in fld else cur
-                    out = Interp(f, env, opaque_ok=False).run(f.body)
-                    if out[1]:
-                        accepted.append(cur)
-                top = max(accepted) if accepted else None
-                ok = top is not None and top + 100 + extra <= 1000 and accepted == list(range(880, top + 1))
-                chk.check(ok, 'R3', f.name, 'writeCheck() never accepts a message that would push the file over the '
-                          'limit (text + %d terminator byte(s))' % extra, f.loc(),
-                          'limit 1000, text length 100: accepted with current size %s -> resulting size %s' % (
-                              top, None if top is None else top + 100 + extra))
+                # writeCheck over all current sizes (also beyond the limit: a single over-long message may
+                # have pushed the generation over it) and several text lengths; unsigned wrap-around is modelled
+                bad = None
+                for L in (0, 1, 100, 999, 1500):
+                    for cur in list(range(0, 1301, 7)) + list(range(880, 1010)):
+                        env = {'%s.length()' % text: L, '%s.size()' % text: L, text: L}
+                        for fld in field_reads(f):
+                            env['this.' + fld] = 1000 if 'Max' in fld else cur
+                        try:
+                            out = Interp(f, env, opaque_ok=False).run(f.body)
+                        except (NeedAtom, Unsupported) as e:
+                            raise AnalysisBroken('%s not interpretable: %s' % (f.key, e))
+                        accepted = bool(out[1])
+                        fits = cur + L + extra <= 1000
+                        if accepted and not fits:
+                            bad = bad or ('accepts', cur, L)
+                        if not accepted and cur + L + extra < 1000:
+                            bad = bad or ('rejects', cur, L)
+                chk.check(bad is None, 'R3', f.name, 'writeCheck() accepts a message iff text + %d terminator byte(s) '
+                          'still fit, for every current size (also beyond the limit)' % extra, f.loc(),
+                          'limit 1000: %s a message of length %s at current size %s' % (
+                              (bad or ('', '', ''))[0], (bad or ('', '', ''))[2], (bad or ('', '', ''))[1]))
     return n
 
 
